@@ -5,7 +5,8 @@
 //
 //   sincos <turn>                         -> <sin> <cos>     (sincos(Turn): sincospi(2 turn))
 //   simplify <tol> <+|-> <tag> <data..>   -> <+|-> <tag> <data..>   (RecursiveSimplifier)
-//   build <tol> <n | t tx ty tz> <region> -> ok nodes k ; <s> <id> <surf> ... | surfs n ; ... | L .. G .. M ..
+//   xform <tag> <data..> | <r00..r22 tx ty tz>  -> <tag> <data..>   (SurfaceTransformer)
+//   build <tol> <n | t tx ty tz | x r00..r22 tx ty tz> <region> -> ok nodes k ; <s> <id> <surf> ... | surfs n ; ... | L .. G .. M ..
 //   e2e <tol> <world hw> <f0|f1> <object> | x y z ...  -> ok <one char per probe: m b F x f>
 //        (f1: two filler material boxes at ±0.85 world so that the BIH gets inner nodes)
 //   member ...                            -> (model only op; harness answers with the real CSG
@@ -15,7 +16,8 @@
 //          | prism <n dec> apothem hh orient | ppiped hx hy hz alpha theta phi <6 oracle sin/cos>
 //          | wedge start interior <4 oracle sin/cos> | genprism hz <n dec> lo(x y)*n hi(x y)*n
 // object  := shape <region> | solid <region> (excl <region params of same type> | noexcl)
-//            (angle start interior | noangle) | tr tx ty tz <object> | neg <object>
+//            (angle start interior | noangle) | tr tx ty tz <object>
+//          | xf <r00..r22 tx ty tz> <object> | neg <object>
 //          | all <k> <object>*k | any <k> <object>*k | sub <object> <object>
 // All doubles are 16-hex-digit bit patterns.  Every op that runs construction code is guarded so
 // that a crash (e.g. unbounded recursion -> stack overflow) is reported as `crash sig<N>`.
@@ -99,7 +101,10 @@ static string show_box(BBox const& b)
     string out;
     for (auto const* p : {&b.lower(), &b.upper()})
         for (int i = 0; i < 3; ++i)
-            out += (out.empty() ? "" : " ") + vh::hexd((*p)[i] + 0.0);
+        {
+            double v = (*p)[i] + 0.0;
+            out += (out.empty() ? "" : " ") + (std::isnan(v) ? string("nan") : vh::hexd(v));
+        }
     return out;
 }
 
@@ -585,6 +590,16 @@ struct ObjParser
                 return nullptr;
             return std::make_shared<Transformed>(o, Translation{Real3{x, y, z}});
         }
+        if (k == "xf")
+        {
+            double d[12];
+            for (double& v : d)
+                v = p.real();
+            auto o = object();
+            if (!o || !p.ok)
+                return nullptr;
+            return std::make_shared<Transformed>(o, Transformation{Span<double const, 12>{d, 12}});
+        }
         if (k == "neg")
         {
             auto o = object();
@@ -739,6 +754,28 @@ static string handle(Words const& w)
         VariantSurface const& vs = *ovs;
         return forked([&] { return do_simplify(tol, s, vs); });
     }
+    if (op == "xform")
+    {
+        // xform <tag> <data..> | r00 .. r22 tx ty tz   -> SurfaceTransformer
+        std::size_t bar = 1;
+        while (bar < w.size() && w[bar] != "|")
+            ++bar;
+        if (bar >= w.size() || bar < 2)
+            return "bad-op";
+        vecd d, a;
+        Words dw(w.begin() + 2, w.begin() + bar), aw(w.begin() + bar + 1, w.end());
+        Parser dp{dw, 0}, ap{aw, 0};
+        while (dp.ok && dp.i < dw.size())
+            d.push_back(dp.real());
+        while (ap.ok && ap.i < aw.size())
+            a.push_back(ap.real());
+        std::optional<VariantSurface> ovs;
+        if (!dp.ok || !ap.ok || a.size() != 12 || !parse_surface(w[1], d, &ovs))
+            return "bad-op";
+        VariantTransform vt = Transformation{Span<double const, 12>{a.data(), 12}};
+        VariantSurface const& vs = *ovs;
+        return forked([&] { return show_surf(apply_transform(vt, vs)); });
+    }
     if (op == "build" || op == "member")
     {
         double tol;
@@ -750,6 +787,16 @@ static string handle(Words const& w)
         {
             double x = p.real(), y = p.real(), z = p.real();
             vt = Translation{Real3{x, y, z}};
+        }
+        else if (tk == "x")
+        {
+            // storage constructor: 9 rotation entries (row major) + 3 translation, unchecked
+            double d[12];
+            for (double& v : d)
+                v = p.real();
+            if (!p.ok)
+                return "bad-op";
+            vt = Transformation{Span<double const, 12>{d, 12}};
         }
         else if (tk != "n")
             return "bad-op";
